@@ -369,6 +369,11 @@ func init() {
 			depth = 4
 		}
 		cfg := e1.Config{ReplayNames: c.ReplayCalls(), Alphabet: alpha, Depth: depth, Stop: r.TooMany,
+			New: func() *world.World {
+				w := world.New()
+				w.Store.KeepImage = true
+				return w
+			},
 			After: func(w *world.World, path []int, pre interface{}, obs string) {
 				atomic.AddInt64(&stateCases, 1)
 				vs := c06Compare(w.Engine.Catalog(), world.RoundTrip, false)
@@ -376,6 +381,15 @@ func init() {
 				if w.Store != nil && w.Store.Stores > 0 {
 					if a, b := c06Dump(w.Engine.Catalog()), c06Dump(w.Store.Catalog); a != b {
 						vs = append(vs, [2]string{"persisted-differs-from-visible", "the catalog handed to the store differs from the published one:\n" + firstDiff(a, b)})
+					}
+				}
+				// ... and the bytes written at the last successful commit load as the visible state (a failed or aborted call
+				// after that commit must not have reached the committed documents in memory)
+				if w.Store != nil && w.Store.Image != nil {
+					if img, err := w.Store.LoadImage(); err != nil {
+						vs = append(vs, [2]string{"image-does-not-load", err.Error()})
+					} else if a, b := c06Dump(w.Engine.Catalog()), c06Dump(img); a != b {
+						vs = append(vs, [2]string{"file-differs-from-visible", "the file written by the last successful commit loads as another state than the visible one:\n--- visible / file\n" + firstDiff(a, b)})
 					}
 				}
 				if len(vs) > 0 {
@@ -387,7 +401,13 @@ func init() {
 		// the same on a database whose change log holds aged events and whose retention trims at every commit
 		aged := cfg
 		aged.Depth = 2
-		aged.New = func() *world.World { return c09NewWorld(true) }
+		aged.New = func() *world.World {
+			w := c09NewWorld(true)
+			if w.Store != nil {
+				w.Store.KeepImage = true
+			}
+			return w
+		}
 		st2 := e1.BFS(aged)
 		st.States += st2.States
 		st.Transitions += st2.Transitions
